@@ -14,7 +14,9 @@ identical repeat may not grow anything.
 """
 import gc
 import types
+import weakref
 from collections import deque, OrderedDict, defaultdict
+from collections import abc as _abc
 
 from . import lib
 
@@ -22,6 +24,16 @@ _CONTAINERS = (dict, list, set, frozenset, tuple, deque)
 _STOP = (types.FunctionType, types.BuiltinFunctionType, types.ModuleType, type, types.MethodType,
          types.CodeType, types.FrameType, types.TracebackType)
 MAX_DEPTH = 4
+
+
+def _other_container(obj):
+    """Containers that are neither dict/list/set/tuple/deque nor library objects: weak dictionaries and
+    sets, UserDict/ChainMap/array and anything else the standard library offers as a Mapping, Set or
+    Sequence (seeded change Y82-m3 parked the caller's callbacks in a module-level WeakKeyDictionary
+    whose values kept the keys alive)"""
+    if isinstance(obj, (str, bytes, bytearray, range, memoryview)):
+        return False
+    return isinstance(obj, (_abc.Mapping, _abc.Set, _abc.Sequence, weakref.WeakSet))
 
 
 def _is_lib_type(t):
@@ -136,6 +148,22 @@ def _measure(obj, depth, seen):
             total += int(obj.cache_info().currsize)
         except Exception:  # noqa
             pass
+    elif _other_container(obj):
+        seen.add(i)
+        try:
+            total += len(obj)
+            items = list(obj.items()) if isinstance(obj, _abc.Mapping) else [(None, v) for v in list(obj)]
+        except Exception:  # noqa
+            items = []
+        for k, v in items:
+            total += _measure(k, depth + 1, seen)
+            total += _measure(v, depth + 1, seen)
+    elif not _is_lib_type(type(obj)) and isinstance(getattr(obj, '__dict__', None), dict) and depth <= 1 \
+            and not isinstance(obj, (int, float, complex, bytes, BaseException)):
+        # a plain holder object at module level (SimpleNamespace, threading.local, an ad-hoc class from elsewhere)
+        seen.add(i)
+        for v in list(obj.__dict__.values()):
+            total += _measure(v, depth + 1, seen)
     elif _is_lib_type(type(obj)):
         seen.add(i)
         d = getattr(obj, '__dict__', None)
@@ -212,7 +240,7 @@ def container_census():
                     if isinstance(av, types.FunctionType):
                         for part, v in _function_parts(av):
                             sizes['%s.%s.%s.%s' % (mname, name, an, part)] = _measure(v, 0, set())
-                    elif isinstance(av, (dict, list, set, deque)):
+                    elif isinstance(av, (dict, list, set, deque)) or _other_container(av):
                         sizes['%s.%s.%s' % (mname, name, an)] = _measure(av, 0, set())
             elif isinstance(val, str):
                 sizes['%s.%s.<str>' % (mname, name)] = len(val)
@@ -221,7 +249,9 @@ def container_census():
             else:
                 # containers, lru_cache wrappers, module-level instances
                 if _is_lib_type(type(val)) or isinstance(val, (dict, list, set, deque, tuple, frozenset)) \
-                        or hasattr(val, 'cache_info'):
+                        or hasattr(val, 'cache_info') or _other_container(val) \
+                        or (isinstance(getattr(val, '__dict__', None), dict) and not isinstance(val, _STOP)
+                            and not isinstance(val, BaseException) and not callable(val)):
                     if getattr(val, '__module__', mname) != mname and hasattr(val, 'cache_info'):
                         pass
                     sizes['%s.%s' % (mname, name)] = _measure(val, 0, set())
